@@ -90,6 +90,7 @@ pub(super) mod udp {
     use octo_squirrel::manager::packet_window::PacketWindowFilter;
     use octo_squirrel::protocol::address::Address;
     use octo_squirrel::protocol::shadowsocks::Mode;
+    use octo_squirrel::protocol::shadowsocks::aead::openssl_bytes_to_key;
     use octo_squirrel::protocol::shadowsocks::aead_2022::password_to_keys;
     use tokio::net::UdpSocket;
     use tokio_util::bytes::BytesMut;
@@ -108,7 +109,12 @@ pub(super) mod udp {
 
     impl<const N: usize> Client<'_, N> {
         pub fn new_static(config: ServerConfig<SslConfig>) -> anyhow::Result<Client<'static, N>> {
-            let (key, identity_keys) = password_to_keys(&config.password).map_err(|e| anyhow!(e))?;
+            // same credential format as for TCP: base64 key(s) for the 2022 ciphers, an ordinary password otherwise
+            let (key, identity_keys) = if config.cipher.is_aead_2022() {
+                password_to_keys(&config.password).map_err(|e| anyhow!(e))?
+            } else {
+                (openssl_bytes_to_key(config.password.as_bytes()), Vec::with_capacity(0))
+            };
             let key: &'static [u8; N] = Box::leak::<'static>(Box::new(key));
             let identity_keys: &'static Vec<[u8; N]> = Box::leak::<'static>(Box::new(identity_keys));
             Ok(Client::<'static> { kind: config.cipher, key, identity_keys })
